@@ -736,7 +736,9 @@ func (fe *FnEnc) alloc(x *ssa.Alloc) Val {
 	et := x.Type().(*types.Pointer).Elem()
 	if _, isStruct := structOf(et); isStruct && x.Heap {
 		k := "next_" + sortID(s.sortOf(et))
-		ref := s.name("new", "Int", s.ghostGet(fe.mem, k, "Int"))
+		ref := s.fresh("new", "Int")
+		s.assert("(= " + ref + " " + s.ghostGet(fe.mem, k, "Int") + ")")
+		s.assert("(>= " + ref + " " + s.ghostGet(fe.top.entryMem, k, "Int") + ")")
 		fe.mem.ghost[k] = s.name("nx", "Int", "(+ "+ref+" 1)")
 		a := &Addr{Root: rootHeap, RootT: et, Ref: ref, Nil: "false"}
 		keys := s.store(fe.mem, a, s.zero(et))
